@@ -26,20 +26,34 @@ EXTRACT = {
 
 CFG = {
     "level": "proof",
-    "level_text": "Lean 4 theorems over an executable model that follows src/trees/bp.rs (byte tables dumped from the "
-                  "build, L0/L1/L2 min-excess index with i8/i16/i32 clamps and wraps, rank directory with packed 9-bit "
-                  "offsets, select supports, the 7-state find_close_from machine, the word-skipping free functions, the "
-                  "SSE4.1 lane model): see Props/C04.lean for the list of full and `_partial` theorems; tie: tables and "
-                  "constants regenerated each run, every constructor x select support x build variant diffed against the "
-                  "compiled model, which is itself cross-checked against the linear-scan spec on every request.",
+    "level_text": "Lean 4 theorems over an executable model that follows src/trees/bp.rs. PROVED for every constructor "
+                  "(owned/borrowed, NoSelect/WithSelect/WithCsPoppy at any rate, scalar/SSE4.1 builders), |ws| = ceil(len/64), "
+                  "any stray bits: byte_tables_eq (4 dumped tables = bit scans), rank1_eq, rank0_eq (len < 2^32; u32 block ranks "
+                  "and 9-bit packed offsets shown lossless from WORDS_PER_RANK_BLOCK = 8), excess_eq_wrap / excess_eq, depth_eq "
+                  "(i32-as-usize cast modelled; len < 2^31), is_open_eq, first_child_eq, method_find_open_eq, method_enclose_eq "
+                  "(+parent), storage_strays_variant_irrelevant; free functions find_close_eq (word skipping by "
+                  "word_min_excess_i32, len < 2^31), find_open_eq, enclose_eq (skipping by word_max_excess_rev); block_min_sound; "
+                  "word_summaries_exact (i8 clamp lossless). PARTIAL / NOT PROVED: method find_close / find_close_from "
+                  "(seven-state loop simulation, L1/L2 fold exactness, fuel) - only the guards "
+                  "(method_find_close_guard_partial) and next_sibling / subtree_size relative to it "
+                  "(next_sibling_subtree_size_partial); select1 for WithSelect/WithCsPoppy and select0 "
+                  "(select1_noselect_partial only); SSE4.1 builders = scalar builders (lane model executed and compared on "
+                  "every request, not proved). These are covered by the correspondence and by the driver's model-vs-spec "
+                  "comparison only. Tie: tables and constants regenerated each run, every constructor x select support x build "
+                  "variant diffed against the compiled model, itself cross-checked against the linear-scan spec on every request.",
     "level_note": "Trusts Lean kernel, the table/constant extractor, popcount / select_in_word semantics (C02), the SSE4.1 "
                   "lane semantics written in Model/BP.lean, and the differential harness. NEON builders unreachable on this host.",
     "technique": "Lean 4 proof (decide +kernel for tables, induction for directory / scans) + differential correspondence vs compiled model and spec",
     "variants": [{"features": []}, {"features": ["simd"]}],
     "lean_modules": ["SuccinctlyVerif.Props.C04"],
     "lean_files": ["SuccinctlyVerif/Props/C04.lean", "SuccinctlyVerif/Proof/BP.lean", "SuccinctlyVerif/Proof/BPTables.lean",
-                   "SuccinctlyVerif/Proof/BPRank.lean", "SuccinctlyVerif/Proof/BPScan.lean",
+                   "SuccinctlyVerif/Proof/BPRank.lean", "SuccinctlyVerif/Proof/BPRankEq.lean", "SuccinctlyVerif/Proof/BPNavEq.lean",
+                   "SuccinctlyVerif/Proof/BPScan.lean", "SuccinctlyVerif/Proof/BPWord.lean", "SuccinctlyVerif/Proof/BPEnclose.lean",
+                   "SuccinctlyVerif/Proof/BPMethods.lean", "SuccinctlyVerif/Proof/BPClose.lean", "SuccinctlyVerif/Proof/BPClose2.lean",
+                   "SuccinctlyVerif/Proof/BPClose3.lean", "SuccinctlyVerif/Proof/BPSibling.lean",
                    "SuccinctlyVerif/Model/BP.lean", "SuccinctlyVerif/Spec/BPNav.lean"],
+    "required_theorems": ["SV.Props.C04.byte_tables_eq", "SV.Props.C04.rank1_eq", "SV.Props.C04.find_close_eq",
+                          "SV.Props.C04.find_open_eq", "SV.Props.C04.enclose_eq"],
     "generated": ["C04:", "tables"],
     "allow_bv_decide": False,
     "nontrivial": _c04_nontrivial,
